@@ -52,7 +52,8 @@ typedef struct { _Bool has; word_t v; } optval;
 #ifndef NN
 #define NN 4
 #endif
-unsigned a_pop_idx[NN], a_push_idx[NN]; marked_ptr a_next[NN]; marked_value a_entry[NN][XV_E];
+struct entry { marked_value value; };       /* the real `struct entry { std::atomic<marked_value> value; }` (a helper may take `const entry&`) */
+unsigned a_pop_idx[NN], a_push_idx[NN]; marked_ptr a_next[NN]; struct entry a_ent[NN][XV_E];
 _Bool a_live[NN]; unsigned a_retired[NN], a_deleted[NN];       /* ghost: allocated and not deleted / retire count / delete count */
 /* ghost a_pend[i]: bit k = a consumer that drew ticket k of node i is still inside pop() (it will take the value or mark the entry INVALID) */
 unsigned a_pend[NN];
@@ -111,7 +112,14 @@ static marked_ptr up_release_fn(marked_ptr* x) { marked_ptr p = *x; *x = 0; retu
 #define N_pop_idx(g) (a_pop_idx[node_idx(g)])
 #define N_push_idx(g) (a_push_idx[node_idx(g)])
 #define N_next(g) (a_next[node_idx(g)])
-#define N_entry(g, i) (a_entry[node_idx(g)][i])
+/* node->entries[i] (lowering rule post_rules): N_ent(node, i) is the `struct entry` lvalue.  In the idx runs (XV_IDX) the index expression the
+ * real text uses - whatever it looks like - is handed to the monitor mon_ent, which is how the ticket -> entry map is observed */
+#ifdef XV_IDX
+static struct entry* mon_ent(word_t g, unsigned i);
+#define N_ent(g, i) (*mon_ent((g), (i)))
+#else
+#define N_ent(g, i) (a_ent[node_idx(g)][i])
+#endif
 #define XV_INIT_pop_idx(self, v) (N_pop_idx(self) = (v))
 #define XV_INIT_push_idx(self, v) (N_push_idx(self) = (v))
 #define XV_INIT_next(self, v) (N_next(self) = (v))
@@ -127,22 +135,22 @@ static void havoc_shared(_Bool rely);
                      && g_released == 0 && value == g_raw /* not published => the argument object still owns the value (matters when a later `new` throws) */ \
                      && (t == 0 || (is_nptr(t) && a_live[nidx(t) % NN])))
 #define XV_HAVOC_PUSH t = nondet_word(); value = nondet_word(); g_released = nondet_uint(); IT_RESET; havoc_shared(0) \
-  /* writes: idx expected next new_node (declared inside); shared cells via GDEREF(t)->entries[idx].value / push_idx / next (lowered to N_entry, N_push_idx, N_next) and self->_tail */
+  /* writes: idx expected next new_node (declared inside); shared cells via GDEREF(t)->entries[idx].value / push_idx / next (lowered to N_ent(..).value, N_push_idx, N_next) and self->_tail */
 #define XV_INV_POP ((h == 0 || (is_nptr(h) && a_live[nidx(h) % NN])) && g_get_count == 0 \
                     && (!(it_ticket_drawn && it_idx < max_idx) || (it_entry_xchg && it_entry_seen == 0)) /* a ticket without value: entry invalidated */ \
                     && (it_head_cas_ok ? (it_reclaims == 1 && it_reclaimed == it_guard) : it_reclaims == 0)  /* unlinked <=> retired, once */)
 #define XV_HAVOC_POP h = nondet_word(); IT_RESET; havoc_shared(0) \
-  /* writes: idx value cnt expected next pop_idx push_idx (declared inside); shared cells via GDEREF(h)->entries[idx].value / pop_idx (lowered to N_entry, N_pop_idx) and self->_head */
+  /* writes: idx value cnt expected next pop_idx push_idx (declared inside); shared cells via GDEREF(h)->entries[idx].value / pop_idx (lowered to N_ent(..).value, N_pop_idx) and self->_head */
 /* SEQ: the loops are cut by invariants that relate the current state to the pre-state snapshot (defined below) */
 static _Bool inv_pushseq(word_t value);
 static _Bool inv_popseq(void);
 static void havoc_nodes_seq(void);
 #define XV_INV_PUSHSEQ inv_pushseq(value)
 #define XV_HAVOC_PUSHSEQ t = nondet_word(); value = nondet_word(); havoc_nodes_seq() \
-  /* writes: idx expected next new_node (declared inside); shared cells via GDEREF(t)->entries[idx].value / push_idx / next (lowered to N_entry, N_push_idx, N_next) and self->_tail */
+  /* writes: idx expected next new_node (declared inside); shared cells via GDEREF(t)->entries[idx].value / push_idx / next (lowered to N_ent(..).value, N_push_idx, N_next) and self->_tail */
 #define XV_INV_POPSEQ inv_popseq()
 #define XV_HAVOC_POPSEQ h = nondet_word(); havoc_nodes_seq() \
-  /* writes: idx value cnt expected next pop_idx push_idx (declared inside); shared cells via GDEREF(h)->entries[idx].value / pop_idx (lowered to N_entry, N_pop_idx) and self->_head */
+  /* writes: idx value cnt expected next pop_idx push_idx (declared inside); shared cells via GDEREF(h)->entries[idx].value / pop_idx (lowered to N_ent(..).value, N_pop_idx) and self->_head */
 
 #include "lowered.h"
 
@@ -167,13 +175,13 @@ static void TR_delete_value(word_t raw) {
 /* ---- harness view of a node ---- */
 static struct node snap(unsigned i) {
   struct node n; n.pop_idx = a_pop_idx[i]; n.push_idx = a_push_idx[i]; n.next = a_next[i];
-  for (unsigned s = 0; s < XV_E; s++) n.ent[s] = a_entry[i][s];
+  for (unsigned s = 0; s < XV_E; s++) n.ent[s] = a_ent[i][s].value;
   n.g_live = a_live[i]; n.g_retired = a_retired[i]; n.g_deleted = a_deleted[i]; n.g_pend = a_pend[i];
   return n;
 }
 static void put(unsigned i, const struct node* n) {
   a_pop_idx[i] = n->pop_idx; a_push_idx[i] = n->push_idx; a_next[i] = n->next;
-  for (unsigned s = 0; s < XV_E; s++) a_entry[i][s] = n->ent[s];
+  for (unsigned s = 0; s < XV_E; s++) a_ent[i][s].value = n->ent[s];
   a_live[i] = n->g_live; a_retired[i] = n->g_retired; a_deleted[i] = n->g_deleted;
 }
 static void havoc_words(struct node* n) {
@@ -182,6 +190,11 @@ static void havoc_words(struct node* n) {
 }
 /* ---- new / delete of nodes: pool allocation running the REAL lowered constructor / destructor ---- */
 static marked_ptr XV_NEW_NODE(raw_value_type item) {
+#ifdef XV_IDX
+  /* idx runs observe the entry of a ticket of the node itself: a push that takes the full-node path instead fails the obligation (no entry used);
+   * the allocation is not modelled there (entries_per_node up to 2048) */
+  xv_threw = XV_EXC_bad_alloc; return 0;
+#endif
   if (g_alloc_may_fail && g_alloc_count >= g_alloc_fail_from && nondet_bool()) { xv_threw = XV_EXC_bad_alloc; return 0; }   /* std::bad_alloc */
   XV_MODEL_ASSERT("pool large enough", g_fresh < NN && !a_live[g_fresh % NN]);
   XV_ASSUME(g_fresh < NN);
@@ -202,7 +215,7 @@ static void XV_DELETE_NODE(marked_ptr w) {
 /* the entry belonging to the counter value drawn in this iteration (the slot map itself is decided by ram.idx.injective and the SEQ runs) */
 #define IT_GI (nidx(it_guard) % NN)
 #define IT_HAS_TICKET (it_acquired && it_ticket_drawn && it_idx < max_idx)
-#define IT_ENTRY ((void*)&a_entry[IT_GI][it_idx % XV_E])
+#define IT_ENTRY ((void*)&a_ent[IT_GI][it_idx % XV_E].value)
 static void mon_load(void* addr, uint64_t v, int o) {
   if (!mon_check || !it_acquired) return;
   if (addr == (void*)&a_next[IT_GI]) { it_next_val = v; it_next_loaded = 1; }
@@ -235,7 +248,7 @@ static void mon_cas(void* addr, uint64_t e, uint64_t d, _Bool ok, int o) {
     /* link a new node behind the protected tail node */
     XV_OBL("ram.push.commit", !it_link_tried && e == 0 && d == g_last_alloc && g_alloc_count == g_delete_count + 1 && XV_IS_RELEASE(o)
            && it_ticket_drawn && it_idx >= max_idx
-           && a_entry[nidx(d) % NN][0] == g_raw && a_next[nidx(d) % NN] == 0);
+           && a_ent[nidx(d) % NN][0].value == g_raw && a_next[nidx(d) % NN] == 0);
     it_link_tried = 1; it_link_ok = ok; it_link_desired = d;
   } else {
     /* store the value into the entry of the ticket just drawn */
@@ -246,7 +259,39 @@ static void mon_cas(void* addr, uint64_t e, uint64_t d, _Bool ok, int o) {
 #else
 static void mon_load(void* addr, uint64_t v, int o) { }
 static void mon_store(void* addr, uint64_t v, int o) { }
+#ifdef XV_IDX
+/* ---- observation of the ticket -> entry map on the real functions (idx runs) ----
+ * the ticket is the value returned by the fetch_add on push_idx / pop_idx of node 0 (RMW monitor); the entry is the index expression of the
+ * first entries[...] access after it (N_ent hands it to mon_ent); every later entries[...] access of the call must name the same entry */
+_Bool obs_on, obs_same; int obs_want, obs_cell; unsigned obs_draws, obs_uses, obs_ticket, obs_entry;
+/* the entries of the node, lazily: obs_ent is the entry named by the first access after the ticket was drawn (index obs_entry, content arbitrary);
+ * every other index (there must be none) gets obs_other.  Nothing depends on entries_per_node, so the runs cost the same for 1 and for 2048 entries */
+struct entry obs_ent, obs_other;
+static void obs_begin(int want) {
+  obs_on = 1; obs_want = want; obs_cell = 0; obs_draws = 0; obs_uses = 0; obs_same = 1; obs_ticket = nondet_uint(); obs_entry = nondet_uint();
+  obs_ent.value = nondet_word(); obs_other.value = nondet_word();
+  XV_ASSUME(IS_ENTRY_WORD(obs_ent.value) && IS_ENTRY_WORD(obs_other.value));
+  /* the state is arbitrary except that the entry the function turns to is free (push: its CAS succeeds) / holds a value (pop: it is returned;
+   * ~node: it is destroyed): the call then ends in the iteration that drew the ticket */
+  if (want == 1) XV_ASSUME(obs_ent.value == 0); else XV_ASSUME(IS_VALUE(obs_ent.value));
+}
+static void mon_rmw(void* addr, uint64_t oldv, uint64_t newv, int o) {
+  if (!obs_on) return;
+  int cell = addr == (void*)&a_push_idx[0] ? 1 : addr == (void*)&a_pop_idx[0] ? 2 : 0;
+  if (cell) { if (obs_draws == 0) { obs_ticket = (unsigned)oldv; obs_cell = cell; } obs_draws++; }
+}
+static struct entry* mon_ent(word_t g, unsigned i) {
+  (void)node_idx(g);
+  if (!(obs_on && obs_draws)) return &obs_other;
+  XV_OBL("ram.idx.injective", i < XV_E);        /* stays in bounds */
+  if (obs_uses == 0) obs_entry = i;
+  else if (i != obs_entry) obs_same = 0;
+  if (obs_uses < 64) obs_uses++;
+  return i == obs_entry ? &obs_ent : &obs_other;
+}
+#else
 static void mon_rmw(void* addr, uint64_t oldv, uint64_t newv, int o) { }
+#endif
 static void mon_cas(void* addr, uint64_t e, uint64_t d, _Bool ok, int o) { }
 #endif
 
@@ -389,19 +434,54 @@ static void reset_ghost(void) {
 }
 
 /* =========================== ram.idx.injective =========================== */
+/* The map is observed on the real lowered functions, not on their text: which entry do push / pop / ~node turn to for the ticket k (counter value
+ * k*step_size)?  Node 0 is the only node; everything but the counter under observation is arbitrary. */
+#ifdef XV_IDX
+static void idx_state(struct ramq* q) {
+  for (unsigned i = 0; i < NN; i++) { a_live[i] = i == 0; a_retired[i] = 0; a_deleted[i] = 0; a_pend[i] = 0;
+    a_pop_idx[i] = nondet_uint(); a_push_idx[i] = nondet_uint(); a_next[i] = nondet_word(); }       /* (entries: obs_begin) */
+  q->_head = NPTR(0); q->_tail = NPTR(0); mon_q = q;
+}
+/* entry the real push stores to after drawing ticket k */
+static unsigned idx_of_push(unsigned k) {
+  struct ramq q; reset_ghost(); idx_state(&q);
+  a_push_idx[0] = k * step_size;
+  word_t v = nondet_word(); XV_ASSUME(v != 0 && (v & MARK63) == 0);
+  obs_begin(1); ram_push(&q, v); obs_on = 0;
+  /* push drew exactly this ticket, by a fetch_add on push_idx, and turned to an entry of the node (not to the full-node path) */
+  XV_OBL("ram.idx.injective", xv_threw == 0 && obs_draws == 1 && obs_cell == 1 && obs_ticket == k * step_size && obs_uses > 0 && obs_same);
+  XV_ASSUME(xv_threw == 0 && obs_uses > 0);
+  XV_OBL("ram.idx.injective", obs_ent.value == v);      /* and that is where the value is now */
+  return obs_entry;
+}
+static unsigned idx_of_pop(unsigned k) {
+  struct ramq q; reset_ghost(); idx_state(&q);
+  a_pop_idx[0] = k * step_size; XV_ASSUME(a_push_idx[0] > a_pop_idx[0]);
+  obs_begin(2); optval r = ram_pop(&q); obs_on = 0;
+  XV_OBL("ram.idx.injective", r.has && obs_draws == 1 && obs_cell == 2 && obs_ticket == k * step_size && obs_uses > 0 && obs_same);
+  XV_ASSUME(r.has && obs_uses > 0);
+  XV_OBL("ram.idx.injective", r.v == MV_get(obs_ent.value));
+  return obs_entry;
+}
+/* entry ~node destroys when ticket k is the only ticket the queue still owns */
+static unsigned idx_of_dtor(unsigned k) {
+  struct ramq q; reset_ghost(); idx_state(&q);
+  a_pop_idx[0] = k * step_size; a_push_idx[0] = k * step_size + step_size;
+  obs_begin(0); obs_draws = 1; obs_ticket = k * step_size;
+  ram_node_dtor(NPTR(0)); obs_on = 0;
+  XV_OBL("ram.idx.injective", obs_uses > 0 && obs_same);
+  XV_ASSUME(obs_uses > 0);
+  return obs_entry;
+}
+#endif
 void h_idx(void) {
 #if !(XV_STATIC_ASSERTS) || !(XV_E > 0)
   XV_CANARY("idx.config_rejected");      /* this entries_per_node does not compile: nothing to prove */
-#else
+#elif defined(XV_IDX)
   in_e = XV_E; in_ki = nondet_uint(); in_kj = nondet_uint();
   unsigned ki = in_ki, kj = in_kj;
   XV_ASSUME(ki < XV_E && kj < XV_E);
-  unsigned a_push, b_push, a_pop, a_dt;
-  /* the statements / expression of the header, applied to the counter values of the two tickets (variables named as in the header) */
-  { unsigned XV_PUSH_SLOT_VAR = ki * step_size; XV_PUSH_SLOT_STMT; a_push = XV_PUSH_SLOT_VAR; }
-  { unsigned XV_PUSH_SLOT_VAR = kj * step_size; XV_PUSH_SLOT_STMT; b_push = XV_PUSH_SLOT_VAR; }
-  { unsigned XV_POP_SLOT_VAR = ki * step_size; XV_POP_SLOT_STMT; a_pop = XV_POP_SLOT_VAR; }
-  { unsigned XV_DTOR_SLOT_VAR = ki * step_size; a_dt = XV_DTOR_SLOT_EXPR; }
+  unsigned a_push = idx_of_push(ki), b_push = idx_of_push(kj), a_pop = idx_of_pop(ki), a_dt = idx_of_dtor(ki);
   XV_OBL("ram.idx.injective", a_push < XV_E && a_pop < XV_E && a_dt < XV_E);
   XV_OBL("ram.idx.injective", a_push == a_pop && a_push == a_dt);            /* producer, consumer and destructor agree on the entry of a ticket */
   XV_OBL("ram.idx.injective", a_push == (ki * XV_STEP) % XV_E);               /* and it is the map the other harnesses use as specification */
@@ -692,15 +772,15 @@ static void havoc_shared(_Bool rely) {
     XV_ASSUME(!(have_private && nx == g_last_alloc));
     if (!(rely && a_next[i] != 0)) a_next[i] = nx;
     for (unsigned s = 0; s < XV_E; s++) {
-      marked_value w = nondet_word(), old = a_entry[i][s]; XV_ASSUME(IS_ENTRY_WORD(w));
+      marked_value w = nondet_word(), old = a_ent[i][s].value; XV_ASSUME(IS_ENTRY_WORD(w));
       if (rely) XV_ASSUME(w == old || old == 0 || (IS_VALUE(old) && w == INVALID));
       /* the entry whose ticket this thread holds: only the partner of that ticket touches it (consumer: null -> INVALID; producer: null -> value) */
       if (rely && it_acquired && it_ticket_drawn && it_idx < max_idx && i == nidx(it_guard) % NN && s == it_idx % XV_E)
         XV_ASSUME(w == old || (old == 0 && (mon_role == 1 ? w == INVALID : IS_VALUE(w))));
-      a_entry[i][s] = w;
+      a_ent[i][s].value = w;
     }
     /* INVALID is written only by the consumer that drew the ticket: never at a ticket not yet handed to a consumer */
-    for (unsigned k = 0; k < XV_E; k++) if (TK(k) >= a_pop_idx[i]) XV_ASSUME(a_entry[i][spec_slot(k)] != INVALID);
+    for (unsigned k = 0; k < XV_E; k++) if (TK(k) >= a_pop_idx[i]) XV_ASSUME(a_ent[i][spec_slot(k)].value != INVALID);
   }
   word_t hd = nondet_word(), tl = nondet_word();
   XV_ASSUME(is_nptr(hd) && a_live[nidx(hd) % NN] && is_nptr(tl) && a_live[nidx(tl) % NN]);
@@ -859,7 +939,7 @@ void h_pop_race(void) {
     if (env_b_drew && H1.pop_idx > H0.pop_idx + XV_STEP) XV_CANARY("pop_race.empty_after_losing_the_ticket");
   }
   /* B finishes: takes the value of its ticket or marks the entry */
-  if (env_b_drew && b_in_node) { if (a_entry[0][b_slot] == 0) a_entry[0][b_slot] = INVALID; }
+  if (env_b_drew && b_in_node) { if (a_ent[0][b_slot].value == 0) a_ent[0][b_slot].value = INVALID; }
   a_pend[0] = H0.g_pend;
   struct node H2 = snap(0);
   XV_OBL("ram.inv.preserved", node_inv(&H2));
@@ -871,7 +951,7 @@ void h_pop_race(void) {
   _Bool reachable = 0;
   for (unsigned k = 0; k < XV_E; k++)
     if (H3.ent[spec_slot(k)] == in_val) reachable = TK(k) >= H3.pop_idx || ((H3.g_pend >> k) & 1);
-  if (a_live[1] && a_entry[1][0] == in_val && a_pop_idx[1] == 0 && H3.next == NPTR(1)) reachable = 1;
+  if (a_live[1] && a_ent[1][0].value == in_val && a_pop_idx[1] == 0 && H3.next == NPTR(1)) reachable = 1;
   XV_OBL("ram.push.slot", reachable);
   if (env_b_drew) XV_CANARY("pop_race.raced"); else XV_CANARY("pop_race.alone");
 #endif
